@@ -210,6 +210,21 @@ func registerMoreStubs(it *Interp) {
 		}
 		return it.callBody(fr, it.pkgFunc(gsmPkg, "IsValidGSM7String"), a, nil, cc)
 	}
+	// IEEE bit pattern of a float64 and back (math.Round, math.Trunc, ... are written with them)
+	s["math.Float64bits"] = func(it *Interp, fr *frame, cc *ssa.CallCommon, a []Value) Value {
+		x := a[0].(*Term)
+		if x.IsConst() {
+			return it.St.Const(64, x.Val)
+		}
+		it.freshN["f64bits"]++
+		b := it.St.Var(fmt.Sprintf("f64bits#%d_%d", it.freshN["f64bits"], x.ID), BV(64))
+		// b is the bit pattern of x (NaN payloads are not distinguished)
+		it.pushPC(it.St.Eq(it.St.FOfBits(b), x))
+		return b
+	}
+	s["math.Float64frombits"] = func(it *Interp, fr *frame, cc *ssa.CallCommon, a []Value) Value {
+		return it.St.FOfBits(a[0].(*Term))
+	}
 	s["strconv.Atoi"] = func(it *Interp, fr *frame, cc *ssa.CallCommon, a []Value) Value {
 		x := a[0].(*Str)
 		if cs, ok := it.concreteStr(x); ok {
